@@ -257,6 +257,16 @@ Theorem whole_array_store_is_checked_refuted :  (* tiny[3] a; a = [1,300,3] read
 Proof. exact whole_array_store_is_checked_refuted_l. Qed.
 Print Assumptions whole_array_store_is_checked_refuted.
 
+(* struct members (direct: unsigned clamp only; nested / arrow / pointer / reference: nothing): a value the type admits is stored
+   exactly, a negative to a directly assigned unsigned member becomes 0, an out-of-range value is KEPT where the property demands an
+   error (findings C04-struct-member-unchecked, C04-pointer-store-unchecked, C04-reference-store-unchecked) *)
+Theorem member_store_partial : forall t v,
+  (in_range t v = true -> (uns t = true -> 0 <= v) -> mech_store PMember t v = coerce t v /\ mech_store PIndirect t v = coerce t v) /\
+  (uns t = true -> v < 0 -> mech_store PMember t v = coerce t v) /\
+  (in_range t v = false -> (uns t = false \/ 0 <= v) -> mech_store PMember t v = Val v /\ mech_store PIndirect t v = Val v /\ coerce t v = Fail ERange).
+Proof. exact member_store_l. Qed.
+Print Assumptions member_store_partial.
+
 (* ---------------------------------------------------------------- non-vacuity *)
 Example sample_store :
   let p := {| pglobals := [ {| gcst := false; gty := {| base := TShort; uns := true |}; gname := 9%nat; gdims := []; ginit := [-4] |} ];
